@@ -136,6 +136,18 @@ Theorem C10_event_time_wraps :
 Proof. exact event_time_wraps_lemma. Qed.
 Print Assumptions C10_event_time_wraps.
 
+(* The keys of the decoded root map are pairwise distinct, and so are those of the nested map, when the schema
+   has no duplicate names (base.NewLogSchema guarantees it), the configuration lists no environment field twice and
+   no visible field is itself called "environment": reading the event into a map[string]interface{} loses nothing. *)
+Theorem C10_keys_distinct :
+  forall schema cfg rec,
+  NoDup schema -> NoDup (c_env cfg) ->
+  ~ In str_environment (map fst (visible schema cfg rec)) ->
+  NoDup (map fst (visible schema cfg rec) ++ [str_environment]) /\
+  NoDup (map fst (env_pairs schema cfg rec)).
+Proof. exact keys_distinct_lemma. Qed.
+Print Assumptions C10_keys_distinct.
+
 (* Non-vacuity (a test on literals): the package's own test schema with real rewriters - environment vhost, app;
    hidden comp; message rewritten by inline(comp) -> unescape; record bar/myapp/"T\n1\"/Y/K2 - satisfies every
    hypothesis above with a 200-byte buffer, and its visible fields are message = "comp=K2 T<LF>1\" and extra = "Y". *)
